@@ -53,6 +53,10 @@ def detect(seed_dir, props=None, tier='quick'):
             if m and os.path.exists(m.group(1)):
                 rp = json.load(open(m.group(1)))
                 replay = rp.get('case') or rp.get('theorem_or_correspondence')
+                if os.path.abspath(seed_dir).startswith(os.path.join(VERIF, 'seeded') + os.sep):
+                    # keep the whole replay next to the change (RESULTS.jsonl only has its first 300 characters)
+                    json.dump({k: rp.get(k) for k in ('property', 'kind', 'harness', 'case', 'oracle_clause', 'detail', 'signature')},
+                              open(os.path.join(seed_dir, f'replay_{pid}.json'), 'w'), indent=1)
                 detail = {k: rp.get(k) for k in ('kind', 'oracle_clause', 'detail', 'observed') if rp.get(k) is not None}
         results[pid] = {'exit': rc, 'violation': viol[0] if viol else None, 'replay_case': str(replay)[:300], 'detail': str(detail)[:400], 'wall_s': round(time.time() - t0, 1)}
     sh('git reset -q --hard && git clean -fdq', cwd=SCRATCH)
